@@ -12,7 +12,7 @@
    mesh of Algo/DualGrid.v as a multiset of triangles), v1_tables_geometry,
    v1_process_edge_rule, v1_traversal (depth <= 3, every sign assignment), and the
    determinism scan.  Vertex positions (QEF / SVD) are not modelled. *)
-From Coq Require Import List ZArith NArith Lia Bool Permutation.
+From Coq Require Import List ZArith NArith Lia Bool Permutation FMapPositive.
 From Sdfx Require Import Generated.DCTables Algo.DualGrid.
 Import ListNotations.
 Open Scope Z_scope.
@@ -390,12 +390,13 @@ Definition cscale (k : Z) (p : cell) : cell := let '(x, y, z) := p in (k * x, k 
 Definition child_off (i : Z) : cell := vec3 (nthZ dcChildMinOffsets i []).
 Definition edge_corners (e : Z) : Z * Z := let r := nthZ dcEdgevmap e [] in (nthZ r 0 0, nthZ r 1 0).
 
-Section V1.
-  Variable s : cell -> bool.
+(* computeOctreeLeaf: corners |= 1<<i for solid corner minOffset + dcChildMinOffsets[i] *)
+Definition leaf_corners (s : cell -> bool) (c : cell) : N := mask (map (fun k => s (cadd c (vec3 k))) dcChildMinOffsets).
 
-  (* computeOctreeLeaf: corners |= 1<<i for solid corner minOffset + dcChildMinOffsets[i] *)
-  Definition leaf_corners (c : cell) : N := mask (map (fun k => s (cadd c (vec3 k))) dcChildMinOffsets).
-  Definition nonempty (c : cell) : bool := let m := leaf_corners c in negb ((m =? 0) || (m =? 255))%N.
+Section V1.
+  Variable lc : cell -> N.     (* drawInfo.corners of the size-1 cell at an offset: leaf_corners s *)
+
+  Definition nonempty (c : cell) : bool := let m := lc c in negb ((m =? 0) || (m =? 255))%N.
 
   Definition node_kind (l : nat) (c : cell) : kind :=
     match l with O => if nonempty c then Leaf else Internal | _ => Internal end.
@@ -417,8 +418,8 @@ Section V1.
     let x := nthZ nd i None in
     let edge := nthZ (nthZ dcProcessEdgeMask dir []) i 0 in
     let '(c1, c2) := edge_corners edge in
-    let m1 := bit (leaf_corners (node_cell x)) c1 in
-    let m2 := bit (leaf_corners (node_cell x)) c2 in
+    let m1 := bit (lc (node_cell x)) c1 in
+    let m2 := bit (lc (node_cell x)) c2 in
     let '(minSize', minIndex', flp') := if node_size x <? minSize then (node_size x, i, m1) else (minSize, minIndex, flp) in
     (minSize', minIndex', flp', sc ++ [xorb m1 m2]).
 
@@ -478,14 +479,35 @@ Section V1.
     else [].
 
   (* GenerateMesh on the octree of depth d (2^d cells per axis) *)
-  Definition v1_mesh (d : nat) : list tri := cell_proc (S d) (Some (d, (0, 0, 0))).
+  Definition v1_mesh_lc (d : nat) : list tri := cell_proc (S d) (Some (d, (0, 0, 0))).
 End V1.
+Definition v1_mesh (s : cell -> bool) (d : nat) : list tri := v1_mesh_lc (leaf_corners s) d.
+
+(* evaluation only: tabulate a function on the cells of the n-block once *)
+Definition cell_key (n c : cell) : positive :=
+  let '(nx, ny, nz) := n in let '(x, y, z) := c in Z.to_pos ((x * ny + y) * nz + z + 1).
+Definition memo_cells (n : cell) (f : cell -> N) : cell -> N :=
+  let m := fold_left (fun (acc : PositiveMap.t N) c => PositiveMap.add (cell_key n c) (f c) acc) (grid n) (PositiveMap.empty N) in
+  fun c => if ingrid n c then match PositiveMap.find (cell_key n c) m with Some v => v | None => f c end else f c.
 
 (* ------------------------------------------------------------------ correspondence *)
-(* sign grid as a bit mask over the points of the n-lattice, x-major: bit ((x*(ny+1)+y)*(nz+1)+z) *)
-Definition grid_sign (n : cell) (bits : N) (p : cell) : bool :=
-  let '(nx, ny, nz) := n in let '(x, y, z) := p in
-  if inlat n p then N.testbit bits (Z.to_N ((x * (ny + 1) + y) * (nz + 1) + z)) else false.
+(* sign grid as a bit mask over the points of the n-lattice, x-major: bit ((x*(ny+1)+y)*(nz+1)+z).
+   The bits are unpacked once into a positive-indexed map (lookup in logarithmic time). *)
+Fixpoint pos_bits (p : positive) : list bool :=
+  match p with xH => [true] | xO q => false :: pos_bits q | xI q => true :: pos_bits q end.
+Definition bits_map (bits : N) : PositiveMap.t bool :=
+  match bits with
+  | N0 => PositiveMap.empty bool
+  | Npos p => snd (fold_left (fun (acc : positive * PositiveMap.t bool) (b : bool) =>
+                     (Pos.succ (fst acc), if b then PositiveMap.add (fst acc) true (snd acc) else snd acc))
+                   (pos_bits p) (1%positive, PositiveMap.empty bool))
+  end.
+Definition grid_sign (n : cell) (bits : N) : cell -> bool :=
+  let m := bits_map bits in
+  fun p => let '(nx, ny, nz) := n in let '(x, y, z) := p in
+    if inlat n p then
+      match PositiveMap.find (Z.to_pos ((x * (ny + 1) + y) * (nz + 1) + z + 1)) m with Some b => b | None => false end
+    else false.
 
 Definition tri_eqb (t u : tri) : bool :=
   let '(a, b, c) := t in let '(d, e, f) := u in ceqb a d && ceqb b e && ceqb c f.
@@ -507,7 +529,8 @@ Definition case1 := (N * nat * N * list tri)%type.
 Definition mismatches1 (cs : list case1) : list N :=
   map (fun c : case1 => let '(id, _, _, _) := c in id)
       (filter (fun c : case1 => let '(id, d, bits, obs) := c in
-         let n := (pow2 d, pow2 d, pow2 d) in negb (tris_eqb (v1_mesh (grid_sign n bits) d) obs)) cs).
+         let n := (pow2 d, pow2 d, pow2 d) in
+         negb (tris_eqb (v1_mesh_lc (memo_cells n (leaf_corners (grid_sign n bits))) d) obs)) cs).
 
 (* closedness of the observed index triangles, decided inside Coq as well: every directed edge
    that occurs is matched (used as a cross-check of the harness's own oracle) *)
